@@ -34,9 +34,12 @@ func gameLine(r *RNG, cfg tak.Config, maxPlies int) []*tak.Position {
 	return out
 }
 
+// isLive: not finished and with a legal move.  Constructed boards in the opening plies can have no move at all
+// (ply 1 with White's stones exhausted: Black has to place a white flat) although GameOver() is false; such
+// positions cannot arise in a game and are outside every claim about searching players.
 func isLive(p *tak.Position) bool {
 	over, _ := p.GameOver()
-	return !over
+	return !over && len(legalMoves(p)) > 0
 }
 
 // livePosition: a not-finished position of a random game on the given size.
@@ -496,7 +499,7 @@ func analyzeDirect(e *engine, p *tak.Position) ([]tak.Move, int64, ai.Stats) {
 
 func genC16(c *Ctx) {
 	r := c.R
-	bud := newBudget(c, 800000, 80000000)
+	bud := newBudget(c, 2400000, 160000000)
 	for k := 0; !bud.spent() && k < 20000; k++ {
 		size := pickSize(r)
 		precise := r.Chance(1, 2)
@@ -529,19 +532,35 @@ func genC16(c *Ctx) {
 			continue
 		}
 		c.Count("evals~" + strconv.Itoa(total/100*100))
+		// cancellation points: every k for small searches (thorough: up to 2000 leaves), else a dense evenly
+		// spaced sample plus the boundaries and some random points
 		var ks []int
-		if total <= 40 || (c.Thorough() && total <= 400) {
+		if total <= 48 || (c.Thorough() && total <= 2000) {
 			for i := 1; i <= total; i++ {
 				ks = append(ks, i)
 			}
 		} else {
+			want := 48
+			if c.Thorough() {
+				want = 400
+			}
 			ks = append(ks, 1, 2, total-1, total)
-			for len(ks) < 24 {
+			off := r.Intn(total/want + 1)
+			for i := 1 + off; i <= total; i += total/want + 1 {
+				ks = append(ks, i)
+			}
+			for j := 0; j < 8; j++ {
 				ks = append(ks, 1+r.Intn(total))
 			}
 		}
+		c.Count("k-points~" + strconv.Itoa(len(ks)/16*16))
+		// references that do not depend on k: the uninterrupted searches limited to each depth, and the
+		// follow-up position on a fresh engine
+		refByDepth := map[int]string{}
+		ref2 := c.Emit("search " + s.tok() + " " + encPos(p2))
+		bud.take(minInt(searchCost(ref2), bud.left))
 		for _, kk := range ks {
-			if !bud.take(4 * total) {
+			if !bud.take(kk + 2*searchCost(ref2)/3 + 50) {
 				break
 			}
 			c.Emit(fmt.Sprintf("case C16-%d-%d-%d", c.Shard, k, kk))
@@ -557,15 +576,19 @@ func genC16(c *Ctx) {
 				c.Count("no-iteration-completed")
 				c.Emit(fmt.Sprintf("eqclaim %s|%s pv=-|v=0", "pv="+field(out, "pv"), "v="+field(out, "v")))
 			} else {
-				lim := s
-				lim.depth = d
-				ref := c.Emit("search " + lim.tok() + " " + encPos(p))
+				ref, ok := refByDepth[d]
+				if !ok {
+					lim := s
+					lim.depth = d
+					ref = c.Emit("search " + lim.tok() + " " + encPos(p))
+					bud.take(minInt(searchCost(ref), bud.left))
+					refByDepth[d] = ref
+				}
 				c.Emit(fmt.Sprintf("eqclaim %s %s", sigOf(out), sigOf(ref)))
 			}
-			// the engine afterwards: exact against the model, and against a fresh engine
+			// the engine afterwards: an uncancelled search on the same engine, exact against the model,
+			// and against the fresh-engine reference
 			out2 := c.Emit("an A " + encPos(p2))
-			c.Emit("eng B " + s.tok())
-			ref2 := c.Emit("an B " + encPos(p2))
 			if s.tbl < 0 && precise {
 				c.Emit(fmt.Sprintf("eqclaim v=%s|d=%s v=%s|d=%s", field(out2, "v"), field(out2, "d"), field(ref2, "v"), field(ref2, "d")))
 				c.Count("followup.value-equality")
@@ -584,6 +607,62 @@ func sigOf(out string) string {
 
 // ---- C04 (alpha-beta part)
 
+// bigBranchPosition: a 7x7 or 8x8 middle-game board on which the mover owns several tall stacks, so that the
+// pseudo-legal move list is long (several hundred slides): move buffers, sorting and the frame arrays are stressed.
+func bigBranchPosition(r *RNG) *tak.Position {
+	for tries := 0; tries < 50; tries++ {
+		size := 7 + r.Intn(2)
+		board := make([][]tak.Square, size)
+		for y := range board {
+			board[y] = make([]tak.Square, size)
+		}
+		ply := 2 * (2 + r.Intn(30))
+		mover := tak.White
+		if r.Chance(1, 2) {
+			mover = tak.Black
+			ply++
+		}
+		spots := [][2]int{{0, 0}, {size - 1, 0}, {0, size - 1}, {size - 1, size - 1}, {size / 2, size / 2}, {0, size / 2}, {size / 2, 0}}
+		nst := 1 + r.Intn(4)
+		caps := 0
+		for k := 0; k < nst; k++ {
+			sp := spots[r.Intn(len(spots))]
+			if board[sp[1]][sp[0]] != nil {
+				continue
+			}
+			h := size - 1 + r.Intn(6)
+			sq := make(tak.Square, h)
+			kind := tak.Flat
+			if caps == 0 && r.Chance(1, 3) {
+				kind = tak.Capstone
+				caps++
+			}
+			sq[0] = tak.MakePiece(mover, kind)
+			for j := 1; j < h; j++ {
+				sq[j] = tak.MakePiece([]tak.Color{tak.White, tak.Black}[r.Intn(2)], tak.Flat)
+			}
+			board[sp[1]][sp[0]] = sq
+		}
+		// a few single pieces of both colours elsewhere
+		for k := 0; k < r.Intn(8); k++ {
+			x, y := r.Intn(size), r.Intn(size)
+			if board[y][x] == nil {
+				kd := tak.Flat
+				if r.Chance(1, 4) {
+					kd = tak.Standing
+				}
+				board[y][x] = tak.Square{tak.MakePiece([]tak.Color{tak.White, tak.Black}[r.Intn(2)], kd)}
+			}
+		}
+		p, err := tak.FromSquares(tak.Config{Size: size}, board, ply)
+		if err != nil || !isLive(p) {
+			continue
+		}
+		return p
+	}
+	return nil
+}
+
 func genC04ab(c *Ctx) {
 	r := c.R
 	n := c.Scale(900, 90000)
@@ -600,7 +679,12 @@ func genC04ab(c *Ctx) {
 			if p != nil {
 				c.Count("pos.one-legal-move")
 			}
-		case x < 3:
+		case x < 2:
+			p = bigBranchPosition(r)
+			if p != nil {
+				c.Count(fmt.Sprintf("pos.big-branching.moves~%d", len(p.AllMoves(nil))/100*100))
+			}
+		case x < 4:
 			p = randomPosition(r)
 			if !isLive(p) {
 				p = nil
